@@ -132,21 +132,23 @@ pub fn check(rep: &mut Rep, w: &World, c: i128, s: TimeScale, others: bool) {
             }
         }
         match guard(|| {
-            vec![
+            let mut v = vec![
                 (TimeScale::UTC, format!("{:?}", e)),
                 (TimeScale::TAI, format!("{:x}", e)),
                 (TimeScale::TT, format!("{:X}", e)),
                 (TimeScale::TDB, format!("{:e}", e)),
                 (TimeScale::ET, format!("{:E}", e)),
-                (TimeScale::GPST, e.to_gregorian_str(TimeScale::GPST)),
-                (TimeScale::BDT, e.to_gregorian_str(TimeScale::BDT)),
-                (TimeScale::UTC, e.to_gregorian_str(TimeScale::UTC)),
-            ]
+            ];
+            // "decomposing any epoch into Gregorian fields in a time scale": every one of the nine, whatever scale holds it
+            for s2 in SCALES {
+                v.push((s2, e.to_gregorian_str(s2)));
+            }
+            v
         }) {
             Err(p) => rep.fail(&format!("render/panic/{}", p.class()), None, || format!("{} other-scale rendering panicked: {} at {}", det(), p.msg, p.loc)),
             Ok(v) => {
                 for (s2, txt) in v {
-                    let tol: i128 = if s2 == s { 0 } else if is_dyn(s2) || is_dyn(s) { 30 } else { 0 };
+                    let tol: i128 = if s2 == s { 0 } else if is_dyn(s2) && is_dyn(s) { 60 } else if is_dyn(s2) || is_dyn(s) { 30 } else { 0 };
                     if tol > 0 && s2 == TimeScale::UTC && w.near_utc_discontinuity(t, 100) {
                         continue; // ET/TDB tolerance makes the UTC reading ambiguous by a whole second
                     }
@@ -224,6 +226,23 @@ pub fn run(cfg: &Cfg, rep: &mut Rep) {
             // sampled years out to +-30000
             let (lo, hi) = gen::reading_range(s, -30000, 30000);
             r.range_i128(lo, hi)
+        } else if k % 50 == 25 {
+            // the whole representable range (about 3.27 million years either side of 1900; a year of six or seven digits and
+            // a sign make the longest texts), kept two centuries inside the bounds so that no conversion on the way saturates
+            rep.class("epoch/far-year");
+            let m = 2 * NPC;
+            match r.below(3) {
+                0 => r.range_i128(MIN_NS + m, MAX_NS - m),
+                1 => {
+                    let (lo, hi) = gen::reading_range(s, -1_100_000, -900_000);
+                    r.range_i128(lo, hi)
+                }
+                _ => {
+                    let y = *r.pick(&[-3_000_000i64, -1_000_000, -999_999, -100_000, -99_999, 99_999, 100_000, 999_999, 1_000_000, 3_000_000]);
+                    let (lo, hi) = gen::reading_range(s, y, y);
+                    r.range_i128(lo, hi)
+                }
+            }
         } else {
             gen::rand_reading(&mut r, s, &lats[si])
         };
